@@ -63,6 +63,7 @@ def run(chk):
     mp = marker_part_terms(sib)
     chk.ob("R1", sib.cfgs["cache"].module, sib.cfgs["cache"].func, f"SubqueryMarker.PART: cache = {S.show(mp['cache'])}, polars = {S.show(mp['polars'])}, sql = {S.show(mp['sql'])}",
            mp["cache"] == mp["polars"] == mp["sql"], "the grouping state across a subquery marker differs between the cache and the compilers")  # fmt: skip
+    _from_ast_interpreted(chk, m)
     _leaf_rule(chk, sib, sym)
 
     # ---- R9 typestate exploration (cachesim): the cache's column report vs the reference automaton
@@ -79,7 +80,23 @@ def run(chk):
         (tbl, "Table.__iter__"), (tbl, "Table.__len__"), (tbl, "Table.__contains__"), (tbl, "Table.__dir__"),
         (vb, "columns"), (cache_mod, "Cache.selected_cols"),
     ]  # fmt: skip
+    # decided on the interpreted accessors where that is possible (tablesim: a cache with a hidden column and a renamed one)
+    interpreted = set()
+    try:
+        from ..interp import PyRaise as _PR2, SymbolicBranch as _SB2
+        from ..tablesim import table_scenarios
+
+        for acc, desc, ok_, detail in table_scenarios(chk.repo):
+            if acc in {q for _, q in accessors}:
+                interpreted.add(acc)
+                amod = next(mo for mo, q in accessors if q == acc)
+                chk.ob("R2", amod, amod.func(acc), f"{acc} interpreted: {desc}", ok_, f"metadata accessor: {detail} - hidden columns would be reported or visible ones missed")
+    except (AnalysisError, _SB2, _PR2) as e:
+        chk.note(f"R2: the accessors could not be interpreted ({str(e)[:120]}); judged by the maps they enumerate")
+        interpreted = set()
     for mod, q in accessors:
+        if q in interpreted:
+            continue
         f = mod.func(q)
         sources = []
         for nd in ast.walk(f):
@@ -171,32 +188,34 @@ def run(chk):
                f"Cache.update for `{v.name}`: {why} - names and identities of visible columns fall out of step")  # fmt: skip
     chk.floor("R3", "verb slices assigning the name maps", n_pairs, 6)
 
-    # ---- R4
-    fa = cache_mod.func("Cache.from_ast")
-    binary = sorted(c.name for c in sym.verb_classes() if "right" in c.all_fields())
-    found = None
-    for nd in ast.walk(fa):
-        if isinstance(nd, ast.If) and isinstance(nd.test, ast.Call) and dotted(nd.test.func) == "isinstance":
-            from ..symbols import isinstance_classes
+    # ---- R4 (and the leaf part of R1): Cache.from_ast interpreted on source tables and small trees (pipesim); the shape of its
+    # branches is the fallback
+    if not _from_ast_interpreted(chk, m):
+        fa = cache_mod.func("Cache.from_ast")
+        binary = sorted(c.name for c in sym.verb_classes() if "right" in c.all_fields())
+        found = None
+        for nd in ast.walk(fa):
+            if isinstance(nd, ast.If) and isinstance(nd.test, ast.Call) and dotted(nd.test.func) == "isinstance":
+                from ..symbols import isinstance_classes
 
-            names = isinstance_classes(sym, cache_mod, nd.test.args[1]) or []
-            if any(b in names for b in binary):
-                found = (nd, sorted(names))
-    if found is None:
-        raise AnalysisError("C11/R4: Cache.from_ast has no branch for verbs with a right child")
-    nd, names = found
-    chk.ob("R4", cache_mod, nd, f"from_ast recurses into right for {names}; verbs with `right`: {binary}", names == binary,
-           f"Cache.from_ast treats {names} as binary but the verbs with a `right` child are {binary}: the recomputed "
-           "metadata ignores (or invents) a right input")  # fmt: skip
-    rec_ok = any(
-        "right_cache" in {k.arg for k in c.keywords} and "from_ast" in norm(c) and ".right" in norm(c)
-        for c in calls_in(ast.Module(body=nd.body, type_ignores=[]))
-    )
-    chk.ob("R4", cache_mod, nd, "binary branch passes right_cache=Cache.from_ast(node.right)", rec_ok,
-           "the binary branch of from_ast does not pass the right child's cache")  # fmt: skip
-    upd_calls = [c for c in calls_in(fa) if isinstance(c.func, ast.Attribute) and c.func.attr == "update"]
-    chk.ob("R4", cache_mod, fa, "from_ast = fold of Cache.update over node.child", len(upd_calls) >= 2 and all(".child" in norm(c) for c in upd_calls),
-           "Cache.from_ast no longer recomputes the metadata by applying Cache.update to the child's cache")  # fmt: skip
+                names = isinstance_classes(sym, cache_mod, nd.test.args[1]) or []
+                if any(b in names for b in binary):
+                    found = (nd, sorted(names))
+        if found is None:
+            raise AnalysisError("C11/R4: Cache.from_ast has no branch for verbs with a right child")
+        nd, names = found
+        chk.ob("R4", cache_mod, nd, f"from_ast recurses into right for {names}; verbs with `right`: {binary}", names == binary,
+               f"Cache.from_ast treats {names} as binary but the verbs with a `right` child are {binary}: the recomputed "
+               "metadata ignores (or invents) a right input")  # fmt: skip
+        rec_ok = any(
+            "right_cache" in {k.arg for k in c.keywords} and "from_ast" in norm(c) and ".right" in norm(c)
+            for c in calls_in(ast.Module(body=nd.body, type_ignores=[]))
+        )
+        chk.ob("R4", cache_mod, nd, "binary branch passes right_cache=Cache.from_ast(node.right)", rec_ok,
+               "the binary branch of from_ast does not pass the right child's cache")  # fmt: skip
+        upd_calls = [c for c in calls_in(fa) if isinstance(c.func, ast.Attribute) and c.func.attr == "update"]
+        chk.ob("R4", cache_mod, fa, "from_ast = fold of Cache.update over node.child", len(upd_calls) >= 2 and all(".child" in norm(c) for c in upd_calls),
+               "Cache.from_ast no longer recomputes the metadata by applying Cache.update to the child's cache")  # fmt: skip
 
     # ---- R5
     n5 = 0
@@ -266,6 +285,28 @@ def run(chk):
     ]
 
 
+def _from_ast_interpreted(chk, m) -> bool:
+    from .. import pipesim
+    from ..interp import SymbolicBranch
+    from .c17 import m_types_env
+
+    if hasattr(chk, "_from_ast_decided"):
+        return chk._from_ast_decided
+    cache_mod = chk.repo.mod("pipe.cache")
+    fa = cache_mod.func("Cache.from_ast")
+    try:
+        res = pipesim.from_ast_scenarios(pipesim.RealWorld(chk.repo, m_types_env(m)))
+    except (AnalysisError, SymbolicBranch) as e:
+        chk.undecided.append(f"R4: Cache.from_ast could not be interpreted ({str(e)[:160]})")
+        chk._from_ast_decided = False
+        return False
+    for desc, ok, detail in res:
+        chk.ob("R1" if desc.startswith("source table cache") else "R4", cache_mod, fa, desc, ok, detail)
+    chk.floor("R4", "from_ast scenarios", len(res), 10)
+    chk._from_ast_decided = True
+    return True
+
+
 def _leaf_rule(chk, sib, sym):
     """source-table leaf: all three enumerate the table's columns in declaration order"""
     from ..dispatch import Slicer
@@ -285,6 +326,8 @@ def _leaf_rule(chk, sib, sym):
                sel == want and part == S.EMPTY,
                f"the {name} compiler starts a source table with SEL = {S.show(sel)}, PART = {S.show(part)} instead of "
                "(all columns of the table in order, no grouping)")  # fmt: skip
+    if getattr(chk, "_from_ast_decided", False):
+        return  # the leaf cache is decided on the interpreted Cache.from_ast (R4 block)
     mod = chk.repo.mod("pipe.cache")
     fa = mod.func("Cache.from_ast")
     ctor = next((c for c in calls_in(fa) if dotted(c.func) == "Cache" and c.keywords), None)
